@@ -45,3 +45,19 @@ Print Assumptions level_above_3_rejected.
 Print Assumptions next_file_returns_intact.
 Print Assumptions iteration_stops.
 Print Assumptions next_file_stops_at_rejected_header.
+(* ---- the whole member list (P_MembersAll.v): every header plain iteration yields on ANY
+   stream -- P_CliMembers.stream_headers, the headers an extraction can meet
+   (Properties_C10.presents_are_stream_headers) -- is intact; each was returned by a call of
+   lha_basic_reader_next_file and of lha_file_header_read ---- *)
+From Lhasa Require P_MembersAll.
+Theorem stream_headers_intact : ltac:(let t := type of P_MembersAll.stream_headers_intact in exact t).
+Proof. exact P_MembersAll.stream_headers_intact. Qed.
+Theorem stream_headers_returned : ltac:(let t := type of P_MembersAll.stream_headers_returned in exact t).
+Proof. exact P_MembersAll.stream_headers_returned. Qed.
+(* ... and so is every header the extraction loop of the tool obtains (with
+   Properties_C10.presents_are_stream_headers); it also has C11's names *)
+Theorem presented_headers_ok : ltac:(let t := type of P_MembersAll.presented_headers_ok in exact t).
+Proof. exact P_MembersAll.presented_headers_ok. Qed.
+Print Assumptions stream_headers_intact.
+Print Assumptions stream_headers_returned.
+Print Assumptions presented_headers_ok.
